@@ -318,10 +318,10 @@ class RTFPage(BaseModel):
     )
 
     @field_validator("border_first", "border_last")
-    def validate_border(cls, v):
+    def validate_border(cls, v, info):
         if v not in BORDER_CODES:
             raise ValueError(
-                f"{cls.__field_name__.capitalize()} with invalid border style: {v}"
+                f"{info.field_name.capitalize()} with invalid border style: {v}"
             )
         return v
 
@@ -335,10 +335,10 @@ class RTFPage(BaseModel):
         return v
 
     @field_validator("width", "height", "nrow", "col_width")
-    def validate_width_height(cls, v):
+    def validate_width_height(cls, v, info):
         if v is not None and v <= 0:
             raise ValueError(
-                f"{cls.__field_name__.capitalize()} must be greater than 0."
+                f"{info.field_name.capitalize()} must be greater than 0."
             )
         return v
 
